@@ -231,7 +231,8 @@ def load_one(lit: LineIterator, norm_threshold: float = 1e-4) -> dict:
     nelec = atnums.sum() - charge
     if coeffsb is None:
         # restricted (closed-shell or open-shell)
-        if abs(occsa.sum() - nelec) > 1e-7:
+        # Occupation numbers are printed with 7 decimals: allow for their rounding errors.
+        if abs(occsa.sum() - nelec) > 1e-7 * (1 + len(occsa)):
             raise LoadError("Occupation numbers are inconsistent with number of electrons", lit)
         mo = MolecularOrbitals(
             "restricted", coeffsa.shape[1], coeffsa.shape[1], occsa, coeffsa, energiesa, irrepsa
@@ -254,7 +255,8 @@ def load_one(lit: LineIterator, norm_threshold: float = 1e-4) -> dict:
                 ),
                 stacklevel=2,
             )
-        if abs(nelec - (nalpha + nbeta)) > 1e-7:
+        # Occupation numbers are printed with 7 decimals: allow for their rounding errors.
+        if abs(nelec - (nalpha + nbeta)) > 1e-7 * (1 + len(occsa) + len(occsb)):
             raise LoadError("Occupation numbers are inconsistent with number of electrons", lit)
         mo = MolecularOrbitals(
             "unrestricted",
